@@ -284,4 +284,4 @@ def parts(tier):
     quick = tier != 'thorough'
     return [Part('xsw-catalogue', run, cases=lambda: catalogue(full=not quick), exhaustive=True),
             Part('layered-encryption', run_layered, cases=layered_cases, exhaustive=True),
-            Part('scripts', run, strategy=lambda: case_strategy(4 if quick else 6), examples=2500 if quick else 60000)]
+            Part('scripts', run, strategy=lambda: case_strategy(4 if quick else 6), examples=2500 if quick else 30000)]
